@@ -407,7 +407,7 @@ func (e *Engine) genVC(key string) (res *FuncResult) {
 		vals: map[ssa.Value]Term{}, tuples: map[ssa.Value][]Term{}, iptr: map[string]Addr{},
 		heapSorts: map[string]Sort{}, nilAxiom: map[string]bool{}, cardAx: map[string]bool{}, trusted: map[string]bool{}, assumedExterns: map[string]bool{}, dropped: map[string]bool{},
 		exitSt: map[*ssa.BasicBlock]*State{}, exitPC: map[*ssa.BasicBlock]Term{}, edgeCond: map[[2]*ssa.BasicBlock]Term{},
-		forced: map[*ssa.BasicBlock]*edgeState{}, closures: map[string]*ssa.MakeClosure{}, slInv: map[string]bool{}, allSorts: map[string]Sort{}, boxOf: map[string]boxedVal{}}
+		forced: map[*ssa.BasicBlock]*edgeState{}, closures: map[string]*ssa.MakeClosure{}, slInv: map[string]bool{}, allSorts: map[string]Sort{}, boxOf: map[string]boxedVal{}, freshRefs: map[string]bool{}}
 	res.VC = vc
 	p0 := e.prog.Fset.Position(fn.Pos())
 	res.SrcFile = shortPath(p0.Filename)
@@ -464,7 +464,7 @@ func (e *Engine) genLemmaVC(l *Lemma, pkg *types.Package) (res *FuncResult) {
 	x := &Exec{eng: e, w: w, vc: vc, pkg: pkg,
 		vals: map[ssa.Value]Term{}, tuples: map[ssa.Value][]Term{}, iptr: map[string]Addr{},
 		heapSorts: map[string]Sort{}, nilAxiom: map[string]bool{}, cardAx: map[string]bool{}, trusted: map[string]bool{}, assumedExterns: map[string]bool{}, dropped: map[string]bool{},
-		closures: map[string]*ssa.MakeClosure{}, slInv: map[string]bool{}, allSorts: map[string]Sort{}, boxOf: map[string]boxedVal{}}
+		closures: map[string]*ssa.MakeClosure{}, slInv: map[string]bool{}, allSorts: map[string]Sort{}, boxOf: map[string]boxedVal{}, freshRefs: map[string]bool{}}
 	x.entry = newState()
 	x.params = map[string]SVal{}
 	x.lets = map[string]SVal{}
